@@ -1000,6 +1000,26 @@ func (g *gen) service() *Service {
 	for i := 0; i < n; i++ {
 		s.Methods = append(s.Methods, g.method(names))
 	}
+	// a parameter in the service's base path: every method's request then carries the field,
+	// and the rule of every method spells it "{snake_name}" like a parameter of its own path
+	if s.BasePath != "" && rapid.IntRange(0, 2).Draw(t, "basepathparam") == 0 {
+		param := rapid.SampledFrom([]string{"tenantId", "orgId", "realm", "scopeKeyId"}).Draw(t, "basepathparamname")
+		clash := false
+		for _, m := range s.Methods {
+			for _, f := range m.Request {
+				if strings.EqualFold(snake(f.Name), snake(param)) || strings.EqualFold(f.Name, param) {
+					clash = true
+				}
+			}
+		}
+		if !clash {
+			for _, m := range s.Methods {
+				m.Request = append(m.Request, &Field{Name: param, Type: &Type{Kind: "string"}})
+			}
+			s.BasePath += "/:" + param
+			g.cls("base-path-parameter")
+		}
+	}
 	return s
 }
 
